@@ -57,6 +57,10 @@ Definition pinv (s : st) : Prop :=
   | PLink => S (tidx m) = (gtk k + 1) * B /\ gnb k = S (gtk k) /\
              1 <= pnew p /\ pnew p < nalloc m /\ (forall j, gfk k <= j -> j < gnb k -> bid k j <> pnew p)
   | PSetT => S (tidx m) = (gtk k + 1) * B /\ gnb k = S (S (gtk k)) /\ bid k (S (gtk k)) = pnew p
+  | PLenH => gtk k * B <= tidx m /\ tidx m < (gtk k + 1) * B /\ gnb k = S (gtk k) /\
+             length (absq (Q s)) <= glen0p (Q s)
+  | PLenT => gtk k * B <= tidx m /\ tidx m < (gtk k + 1) * B /\ gnb k = S (gtk k) /\
+             plenh p <= hidx m /\ tidx m - plenh p <= glen0p (Q s)
   end.
 
 (* consumer: control point against head position, the values collected so far *)
@@ -80,7 +84,7 @@ Definition cinv (s : st) : Prop :=
 
 Definition flags_ok (f : gm) : Prop :=
   bad_fifo f = false /\ bad_none f = false /\ bad_read f = false /\ bad_recyc f = false /\
-  bad_over f = false /\ bad_null f = false /\ bad_len f = false.
+  bad_over f = false /\ bad_null f = false /\ bad_len f = false /\ bad_lenp f = false.
 
 Record Inv (s : st) : Prop := {
   (* refinement *)
